@@ -1489,6 +1489,11 @@ get_getter(CPPType *expr_type, string expression,
   if (_functions_by_name.count(function_name) != 0) {
     return 0;
   }
+  if (scope != nullptr && scope->_functions.count(fname) != 0) {
+    // The class declares a method of this name itself (possibly after the
+    // data member, so that it is not in the database yet).
+    return 0;
+  }
 
   ostringstream desc;
   desc << "getter for ";
@@ -1564,6 +1569,11 @@ get_setter(CPPType *expr_type, string expression,
   // function for a synthesized setter.
   string function_name = TypeManager::get_function_name(function);
   if (_functions_by_name.count(function_name) != 0) {
+    return 0;
+  }
+  if (scope != nullptr && scope->_functions.count(fname) != 0) {
+    // The class declares a method of this name itself (possibly after the
+    // data member, so that it is not in the database yet).
     return 0;
   }
 
